@@ -7,7 +7,7 @@ use crate::iters::*;
 use moc::elem::range::MocRange;
 use moc::idx::Idx;
 use moc::mom::{HpxMOMIterator, HpxMomIter, MOMIterator};
-use moc::qty::Hpx;
+use moc::qty::{Hpx, MocQty};
 use moc::moc::range::RangeMOC;
 use moc::moc::{HasMaxDepth, RangeMOCIterator, RangeMOCIntoIterator};
 use moc::ranges::SNORanges;
@@ -18,6 +18,7 @@ struct QObs {
   cr: Result<bool, String>,
   ir: Result<bool, String>,
   frac: Result<f64, String>,
+  cdv: Result<bool, String>,
 }
 
 fn impl_queries<T: Idx, QQ: Inst<T>>(m: &Moc, qs: &[(u64, u64)]) -> Vec<QObs> {
@@ -31,6 +32,8 @@ fn impl_queries<T: Idx, QQ: Inst<T>>(m: &Moc, qs: &[(u64, u64)]) -> Vec<QObs> {
         cr: catch(|| mm.moc_ranges().contains_range(&r)),
         ir: catch(|| mm.moc_ranges().intersects_range(&r)),
         frac: catch(|| mm.range_fraction(&MocRange::<T, QQ>::from(r.clone()))),
+        // the same point given as the index of its cell of the depth of the MOC
+        cdv: catch(|| mm.contains_depth_max_val(&ta.unsigned_shr(<QQ as MocQty<T>>::shift_from_depth_max(m.d) as u32))),
       }
     })
     .collect()
@@ -130,6 +133,10 @@ pub fn check_case(rep: &mut Report, orc: &mut Oracle, m: &Moc, qs: &[(u64, u64)]
     if o.cv != Ok(cv) {
       ok = false;
       bad("contains_val", bres(&o.cv), format!("{}", cv as u8), "C03_contains_val", rep);
+    }
+    if o.cdv != Ok(cv) {
+      ok = false;
+      bad("contains_depth_max_val (the cell of the MOC depth that holds the point)", bres(&o.cdv), format!("{}", cv as u8), "C03_contains_val", rep);
     }
     if o.cr != Ok(cr) {
       ok = false;
